@@ -113,3 +113,51 @@ func VerifC01_write_and_restore() {
 	sym.Reach("C01.write")
 	_ = model.TagNoCache
 }
+
+// The output hash a dependant's key is built from identifies *which* output has *which* bytes and
+// mode: two runs of a target whose outputs differ only in the assignment of contents to paths
+// (swapped files), or only in an executable bit, have different output hashes; identical runs have
+// the same. (A hash over the content digests alone would serve dependants a stale result.)
+func VerifC01_output_hash_identity() {
+	w := newWorld()
+	variant := sym.Choice("second_run", 4) // 0 identical, 1 contents swapped, 2 one file becomes executable, 3 one content changed
+	pick := func(name string) string { return []string{"a", "b"}[sym.Choice(name, 2)] }
+	c1, c2 := pick("content_1"), pick("content_2")
+	run := func(command string, a, b string, execB bool) *model.Target {
+		cmdFuncs[command] = func() error {
+			if err := os.WriteFile(wsPath("p/o1.txt"), []byte(a), 0644); err != nil {
+				return err
+			}
+			mode := os.FileMode(0644)
+			if execB {
+				mode = 0755
+			}
+			_ = os.Remove(wsPath("p/o2.txt"))
+			return os.WriteFile(wsPath("p/o2.txt"), []byte(b), mode)
+		}
+		t := fileTarget("t", command, "o1.txt", "o2.txt")
+		p := w.newProcess(true, config.LoadOutputsAll, t)
+		_, err := p.run(w.ctx, t)
+		sym.Assert(err == nil, "C01.dep.setup-build-succeeds")
+		return t
+	}
+	t1 := run("gen-1", c1, c2, false)
+	var t2 *model.Target
+	same := false
+	switch variant {
+	case 0:
+		t2 = run("gen-2", c1, c2, false)
+		same = true
+	case 1:
+		t2 = run("gen-2", c2, c1, false)
+		same = sym.StrEq(c1, c2)
+	case 2:
+		t2 = run("gen-2", c1, c2, true)
+	default:
+		c3 := pick("content_3")
+		t2 = run("gen-2", c1, c3, false)
+		same = sym.StrEq(c2, c3)
+	}
+	sym.Assert(sym.Iff(same, sym.StrEq(t1.OutputHash, t2.OutputHash)), "C01.dep.output-hash-identifies-paths-bytes-and-modes")
+	sym.Reach("C01.dep.output-hash-identity")
+}
